@@ -1,11 +1,13 @@
 (* C09: file I/O round-trips; sharded, streamed and parallel paths equal the plain ones.
    ONLY the property theorems (each closed by `exact`) and their non-vacuity examples.
-   Models: IO/Shards.v (tilings), IO/Jsonl.v (framing, sources, writers, glob).
+   Models: IO/Shards.v (tilings), IO/Jsonl.v (framing, sources, writers, glob), IO/Exec.v (the VecOps
+   adapters over arbitrary shard descriptions and the four engines of src/runner.rs).
    `chain a rs b` = the half-open ranges rs are contiguous, start at a and end at b.
    serde_json / csv / parquet / glob appear as hypotheses (de, ser, csv_out, row groups, the matched
    file list); they are validated by the correspondence runs only. *)
 From Coq Require Import List ZArith NArith Bool Permutation Sorted.
-From IB Require Import IO.Shards IO.Jsonl Proofs.ShardsProofs Proofs.JsonlProofs Proofs.JsonlGlobProofs.
+From IB Require Import IO.Shards IO.Jsonl IO.Exec Proofs.ShardsProofs Proofs.JsonlProofs Proofs.JsonlGlobProofs
+  Proofs.ExecProofs.
 Import ListNotations.
 
 (* ---------- tilings ---------- *)
@@ -229,3 +231,243 @@ Example c09_glob_concat_ex :
   = [[[97]; [120]]; [[97; 45; 98]; [120]]; [[97; 46; 98]; [120]]]%Z
   /\ @read_glob Z (fun _ => Ok []) [] = Err.
 Proof. vm_compute. split; reflexivity. Qed.
+
+(* ---------- every execution configuration (IO/Exec.v) ---------- *)
+(* engine e in {exec_seq, exec_par, exec_seq_with_checkpointing, exec_par_with_checkpointing}, p = the
+   partition count the Runner resolved. JSONL, ANY shard description whose ranges are contiguous
+   from 0 to `total` (build_jsonl_shards' or hand-built), ANY current content: the engine returns
+   the plain read of the first `total` lines, or fails in its own way (Err sequentially, Panic in
+   parallel) when that read fails *)
+Theorem c09_exec_jsonl_any_tiling :
+  forall (R : Type) (de : list Z -> option R) (e : engine) (p : N) (ls : list (list Z))
+         (rs : list range) (total : N),
+    chain 0 rs total ->
+    exec_source e p (jsonl_adapter de ls rs total)
+    = lift_whole e (read_vec de (firstn (N.to_nat total) ls)).
+Proof. exact @exec_jsonl_any_tiling. Qed.
+
+Example c09_exec_jsonl_any_tiling_ex :
+  let de := fun l : list Z => match l with [z] => Some z | _ => None end in
+  let ls := [[65]; []; [66]; [67]; [68; 68]]%Z in
+  chainb 0 [(0, 1); (1, 1); (1, 4)]%N 4 = true
+  /\ map (fun e => exec_source e 3 (jsonl_adapter de ls [(0, 1); (1, 1); (1, 4)]%N 4)) all_engines
+     = [Ok [65; 66; 67]; Ok [65; 66; 67]; Ok [65; 66; 67]; Ok [65; 66; 67]]%Z
+  /\ map (fun e => exec_source e 3 (jsonl_adapter de ls [(0, 2); (2, 5)]%N 5)) all_engines
+     = [Err; Panic; Err; Panic].
+Proof. vm_compute. repeat split; reflexivity. Qed.
+
+(* read_jsonl_streaming under every engine and every partition count = read_jsonl_vec *)
+Theorem c09_exec_jsonl_source :
+  forall (R : Type) (de : list Z -> option R) (e : engine) (p : N) (ls : list (list Z)) (per : N),
+    exec_source e p (jsonl_source de ls per) = lift_whole e (read_vec de ls).
+Proof. exact @exec_jsonl_source. Qed.
+
+Example c09_exec_jsonl_source_ex :
+  let de := fun l : list Z => match l with [z] => Some z | _ => None end in
+  exec_source ESeqCk 1 (jsonl_source de [[65]; [32]; [66]; [67]]%Z 2) = Ok [65; 66; 67]%Z
+  /\ exec_source EParCk 7 (jsonl_source de [[65]; [32]; [66]; [67]]%Z 3) = Ok [65; 66; 67]%Z.
+Proof. vm_compute. split; reflexivity. Qed.
+
+(* the file was rewritten after the source handle was built over ls0: every engine reads the first
+   |ls0| lines of the new content -- all engines still agree, and nothing of the old content shows *)
+Theorem c09_exec_jsonl_stale :
+  forall (R : Type) (de : list Z -> option R) (e : engine) (p : N) (ls0 ls : list (list Z)) (per : N),
+    exec_source e p (jsonl_adapter de ls (build_shards ls0 per) (total_lines ls0))
+    = lift_whole e (read_vec de (firstn (length ls0) ls)).
+Proof. exact @exec_jsonl_stale. Qed.
+
+Example c09_exec_jsonl_stale_ex :
+  let de := fun l : list Z => match l with [z] => Some z | _ => None end in
+  exec_source EPar 2 (jsonl_adapter de [[70]; [71]; [72]]%Z (build_shards [[65]; [66]]%Z 1) (total_lines [[65]; [66]]%Z))
+  = Ok [70; 71]%Z.
+Proof. vm_compute. reflexivity. Qed.
+
+(* CSV rows: any tiling of [0, total), any current content, every engine *)
+Theorem c09_exec_rows_any_tiling :
+  forall (R : Type) (e : engine) (p : N) (rows : list R) (rs : list range) (total : N),
+    chain 0 rs total ->
+    exec_source e p (rows_adapter rows rs total) = Ok (firstn (N.to_nat total) rows).
+Proof. exact @exec_rows_any_tiling. Qed.
+
+Theorem c09_exec_rows_source :
+  forall (R : Type) (e : engine) (p : N) (rows : list R) (per : N),
+    exec_source e p (rows_source rows per) = Ok rows.
+Proof. exact @exec_rows_source. Qed.
+
+Example c09_exec_rows_ex :
+  map (fun e => exec_source e 5 (rows_source [1; 2; 3; 4; 5]%Z 2)) all_engines
+  = repeat (Ok [1; 2; 3; 4; 5]%Z) 4
+  /\ chainb 0 [(0, 3); (3, 3); (3, 4)]%N 4 = true
+  /\ exec_source EParCk 1 (rows_adapter [1; 2; 3; 4; 5]%Z [(0, 3); (3, 3); (3, 4)]%N 4) = Ok [1; 2; 3; 4]%Z.
+Proof. vm_compute. repeat split; reflexivity. Qed.
+
+(* Parquet: any tiling of the first ng row groups of a file that (still) has at least ng groups *)
+Theorem c09_exec_parquet_any_tiling :
+  forall (R : Type) (e : engine) (p : N) (groups : list (list R)) (rs : list range) (ng tr : N),
+    chain 0 rs ng -> (ng <= nlen groups)%N ->
+    exec_source e p (pq_adapter groups rs tr) = Ok (concat (firstn (N.to_nat ng) groups)).
+Proof. exact @exec_pq_any_tiling. Qed.
+
+(* ... and when the file shrank below the row groups the handle knows, every engine panics (the
+   parquet crate rejects the row-group index): no engine returns a partial result *)
+Theorem c09_exec_parquet_shrunk :
+  forall (R : Type) (e : engine) (p : N) (groups : list (list R)) (rs : list range) (ng tr : N),
+    chain 0 rs ng -> (nlen groups < ng)%N ->
+    exec_source e p (pq_adapter groups rs tr) = Panic.
+Proof. exact @exec_pq_stale_shrunk. Qed.
+
+Theorem c09_exec_parquet_source :
+  forall (R : Type) (e : engine) (p : N) (groups : list (list R)) (per : N),
+    exec_source e p (pq_source groups per) = Ok (pq_whole groups).
+Proof. exact @exec_pq_source. Qed.
+
+Example c09_exec_parquet_ex :
+  map (fun e => exec_source e 2 (pq_source [[1; 2]; [3; 4]; [5]]%Z 2)) all_engines
+  = repeat (Ok [1; 2; 3; 4; 5]%Z) 4
+  /\ chainb 0 (group_ranges 3 2) 3 = true
+  /\ map (fun e => exec_source e 2 (pq_adapter [[7; 8]]%Z (group_ranges 3 2) 5)) all_engines
+     = repeat Panic 4.
+Proof. vm_compute. repeat split; reflexivity. Qed.
+
+(* a streamed source as one side of a join (run_subplan_seq / run_subplan_par): the partitions
+   handed to the join concatenate to what the engine returns for the source alone, so the join sees
+   the whole file *)
+Theorem c09_join_side_eq_whole :
+  forall (e : engine) (p : N) (a : adapter Z) (other v : list Z),
+    exec_source e p a = Ok v ->
+    join_side_ids e p a other = Ok (join_keys v other)
+    /\ exists parts, subplan_source e p a = Ok parts /\ concat parts = v.
+Proof. exact join_side_eq_whole. Qed.
+
+Example c09_join_side_eq_whole_ex :
+  exec_source EParCk 3 (rows_source [0; 1; 2; 3; 4]%Z 2) = Ok [0; 1; 2; 3; 4]%Z
+  /\ join_side_ids EParCk 3 (rows_source [0; 1; 2; 3; 4]%Z 2) [1; 2; 2; 4; 5]%Z = Ok [1; 2; 2; 4]%Z
+  /\ subplan_source EParCk 3 (rows_source [0; 1; 2; 3; 4]%Z 2) = Ok [[0; 1]; [2; 3]; [4]]%Z.
+Proof. vm_compute. repeat split; reflexivity. Qed.
+
+(* an adapter whose split (for every requested count) and clone_any describe the same data gives
+   the same records under all four engines and every partition count *)
+Theorem c09_engines_agree :
+  forall (R : Type) (a : adapter R) (v : list R),
+    ad_clone a = Ok v ->
+    (forall n, exists parts, ad_split a n = Ok parts /\ concat parts = v) ->
+    forall (e : engine) (p : N), exec_source e p a = Ok v.
+Proof. exact @engines_agree. Qed.
+
+Example c09_engines_agree_ex :
+  let a := rows_source [1; 2; 3]%Z 2 in
+  ad_clone a = Ok [1; 2; 3]%Z
+  /\ (forall n, exists parts, ad_split a n = Ok parts /\ concat parts = [1; 2; 3]%Z).
+Proof.
+  cbv zeta. split; [vm_compute; reflexivity|].
+  intros n. exists [[1; 2]; [3]]%Z. split; vm_compute; reflexivity.
+Qed.
+
+(* the in-memory adapter of from_vec (VecOpsImpl: chunks of ceil(len / n)) is such an adapter *)
+Theorem c09_exec_mem_source :
+  forall (R : Type) (e : engine) (p : N) (v : list R), exec_source e p (mem_adapter v) = Ok v.
+Proof. exact @exec_mem_source. Qed.
+
+Example c09_exec_mem_source_ex :
+  mem_split [1; 2; 3; 4; 5]%Z 2 = [[1; 2; 3]; [4; 5]]%Z /\ mem_split [1; 2; 3]%Z 1 = [[1; 2; 3]]%Z
+  /\ exec_source EPar 2 (mem_adapter [1; 2; 3; 4; 5]%Z) = Ok [1; 2; 3; 4; 5]%Z.
+Proof. vm_compute. repeat split; reflexivity. Qed.
+
+(* regression documented (seeded change C09-r4m2): taking the first partition of split(payload, 1)
+   as "the whole source" is right for every in-memory source and wrong for a file source with more
+   than one shard -- which is why only a streamed source under Runner{Sequential, checkpointing}
+   shows it *)
+Theorem c09_first_split_refuted :
+  (forall (R : Type) (v : list R), source_first_split (mem_adapter v) = Ok v)
+  /\ source_first_split (rows_source [1; 2; 3]%Z 2) = Ok [1; 2]%Z
+  /\ exec_source ESeqCk 4 (rows_source [1; 2; 3]%Z 2) = Ok [1; 2; 3]%Z.
+Proof. exact first_split_refuted. Qed.
+
+(* ---------- the range readers on arbitrary ranges ---------- *)
+(* read_jsonl_range: adjacent ranges compose (failures propagate left to right); an empty or
+   inverted range reads nothing *)
+Theorem c09_read_range_compose :
+  forall (R : Type) (de : list Z -> option R) (ls : list (list Z)) (a b c : N),
+    (a <= b)%N -> (b <= c)%N ->
+    oapp (read_range de ls (a, b)) (read_range de ls (b, c)) = read_range de ls (a, c).
+Proof. exact @read_range_app. Qed.
+
+Theorem c09_read_range_degenerate :
+  forall (R : Type) (de : list Z -> option R) (ls : list (list Z)) (s e : N),
+    (e <= s)%N -> read_range de ls (s, e) = Ok [].
+Proof. exact @read_range_degenerate. Qed.
+
+Example c09_read_range_ex :
+  let de := fun l : list Z => match l with [z] => Some z | _ => None end in
+  let ls := [[65]; []; [66]; [67; 67]; [68]]%Z in
+  read_range de ls (0, 2)%N = Ok [65]%Z /\ read_range de ls (2, 3)%N = Ok [66]%Z
+  /\ read_range de ls (0, 3)%N = Ok [65; 66]%Z /\ read_range de ls (2, 5)%N = Err
+  /\ read_range de ls (3, 1)%N = Ok [] /\ read_range de ls (4, 1000000)%N = Ok [68]%Z.
+Proof. vm_compute. repeat split; reflexivity. Qed.
+
+(* read_csv_range's index loop (skip while i < start, stop at i >= end) is the slice, for every
+   start / end: inverted ranges are empty, ends beyond the file are clamped to its length *)
+Theorem c09_rows_loop_is_slice :
+  forall (R : Type) (rows : list R) (r : range),
+    rows_read_loop 0 rows (fst r) (snd r) = rows_read_range rows r
+    /\ ((snd r <= fst r)%N -> rows_read_range rows r = [])
+    /\ rows_read_range rows (N.min (fst r) (nlen rows), N.min (snd r) (nlen rows)) = rows_read_range rows r.
+Proof. exact @rows_loop_is_slice. Qed.
+
+Example c09_rows_loop_is_slice_ex :
+  rows_read_loop 0 [10; 11; 12; 13]%Z 1 3 = [11; 12]%Z /\ rows_read_loop 0 [10; 11; 12; 13]%Z 3 1 = []
+  /\ rows_read_loop 0 [10; 11; 12; 13]%Z 2 1099511627776 = [12; 13]%Z.
+Proof. vm_compute. repeat split; reflexivity. Qed.
+
+(* ---------- consistency of the two models, corollaries ---------- *)
+(* collect_seq / collect_par as modelled in IO/Jsonl.v (stream_seq / stream_par, rows_stream_seq / _par, pq_stream_seq / _par) are the
+   ESeq / EPar instances of the engine model, for every partition count *)
+Theorem c09_stream_is_exec :
+  forall (R : Type) (de : list Z -> option R) (ls : list (list Z)) (per p : N),
+    stream_seq de ls per = exec_source ESeq p (jsonl_source de ls per)
+    /\ stream_par de ls per = exec_source EPar p (jsonl_source de ls per).
+Proof. exact @stream_is_exec. Qed.
+
+Theorem c09_rows_parquet_stream_is_exec :
+  forall (R : Type) (rows : list R) (groups : list (list R)) (per p : N),
+    exec_source ESeq p (rows_source rows per) = Ok (rows_stream_seq rows per)
+    /\ exec_source EPar p (rows_source rows per) = Ok (rows_stream_par rows per)
+    /\ exec_source ESeq p (pq_source groups per) = Ok (pq_stream_seq groups per)
+    /\ exec_source EPar p (pq_source groups per) = Ok (pq_stream_par groups per).
+Proof. exact @rows_pq_stream_is_exec. Qed.
+
+Example c09_stream_is_exec_ex :
+  let de := fun l : list Z => match l with [z] => Some z | _ => None end in
+  stream_par de [[65]; [66; 66]]%Z 1 = Panic
+  /\ exec_source EPar 9 (jsonl_source de [[65]; [66; 66]]%Z 1) = Panic
+  /\ exec_source ESeq 9 (jsonl_source de [[65]; [66; 66]]%Z 1) = Err
+  /\ exec_source EPar 2 (pq_source [[1]; [2; 3]]%Z 1) = Ok (pq_stream_par [[1]; [2; 3]]%Z 1).
+Proof. vm_compute. repeat split; reflexivity. Qed.
+
+(* a JSONL file that only grew (lines appended) after the handle was built: every engine returns
+   exactly the records the file had when the handle was built *)
+Theorem c09_exec_jsonl_appended :
+  forall (R : Type) (de : list Z -> option R) (e : engine) (p : N) (ls0 extra : list (list Z)) (per : N),
+    exec_source e p (jsonl_adapter de (ls0 ++ extra) (build_shards ls0 per) (total_lines ls0))
+    = lift_whole e (read_vec de ls0).
+Proof. exact @exec_jsonl_appended. Qed.
+
+Example c09_exec_jsonl_appended_ex :
+  let de := fun l : list Z => match l with [z] => Some z | _ => None end in
+  exec_source ESeqCk 1 (jsonl_adapter de ([[65]; [66]] ++ [[67]; [0; 0]])%Z (build_shards [[65]; [66]]%Z 1)
+                          (total_lines [[65]; [66]]%Z))
+  = Ok [65; 66]%Z.
+Proof. vm_compute. reflexivity. Qed.
+
+(* exec_par's `partitions.max(1).min(total_len.max(1))` is between 1 and both bounds *)
+Theorem c09_par_parts_bounds :
+  forall (R : Type) (a : adapter R) (p : N),
+    (1 <= par_parts p a)%N
+    /\ (par_parts p a <= N.max p 1)%N
+    /\ (par_parts p a <= N.max (match ad_len a with Some l => l | None => 0 end) 1)%N.
+Proof. exact @par_parts_bounds. Qed.
+
+Example c09_par_parts_bounds_ex :
+  par_parts 0 (rows_source [1; 2; 3]%Z 1) = 1%N /\ par_parts 64 (rows_source [1; 2; 3]%Z 1) = 3%N
+  /\ par_parts 64 (rows_source (@nil Z) 1) = 1%N.
+Proof. vm_compute. repeat split; reflexivity. Qed.
